@@ -62,6 +62,8 @@ def gen_scenario(batch_seed, i, tier):
             routes += ['svg_uri', 'svg_inline', 'svgz']
         if cli:
             routes += ['cli', 'cli_terminal']
+            if kind == 'svg':
+                routes.append('cli_svgz')
         routes += ['unknown_ext']
         if config == 'fault':
             routes.append('nonseekable')
@@ -83,7 +85,7 @@ def gen_scenario(batch_seed, i, tier):
                            'short': op == 'write' and rng.random() < 0.2})
     return {'prop': PROP, 'seed': seed, 'index': i, 'config': config, 'seq': is_seq, 'cli': cli, 'kind': kind,
             'content': core.enc(content), 'mkw': core.enc(mkw), 'skw': core.enc(skw), 'routes': routes,
-            'ext_case': _randcase(rng, 'svgz' if False else kind), 'kind_case': _randcase(rng, kind),
+            'ext_case': _randcase(rng, kind), 'kind_case': _randcase(rng, kind), 'svgz_case': _randcase(rng, 'svgz'),
             'clock': clock, 'bufsize': rng.choice((0, 16, 512, 8192)), 'faults': faults,
             'terminal': {'border': rng.choice((None, 0, 1, 4)), 'compact': rng.random() < 0.4}}
 
@@ -178,7 +180,7 @@ def execute(sc):
                 o.ref = ref.getvalue()
                 return o
             if r == 'svgz':
-                p = 'svgz-%s.%s' % (tag, 'svgz' if ext.islower() else 'SvgZ')
+                p = 'svgz-%s.%s' % (tag, sc.get('svgz_case', 'svgz'))
                 sym.save(p, **skw)
                 raw = fs.files.get(p)
                 return Outcome(r, gzip.decompress(raw), files=stamp_files(before), extra=p)
@@ -187,6 +189,17 @@ def execute(sc):
                 argv = opts.make_argv(mkw) + opts.ser_argv(skw) + ['--output=' + p, content]
                 pr = world.run_cli(argv, plan=w.plan)
                 o = Outcome(r, fs.files.get(p) if pr['status'] == 0 else None, files=stamp_files(before), extra=p)
+                o.proc = pr
+                o.argv = argv
+                if pr['status'] != 0:
+                    o.err = pr['exc'] or 'exit %s: %s' % (pr['status'], pr['stderr'][:80])
+                return o
+            if r == 'cli_svgz':
+                p = 'clisvgz-%s.%s' % (tag, sc.get('svgz_case', 'svgz'))
+                argv = opts.make_argv(mkw) + opts.ser_argv(skw) + ['--output=' + p, content]
+                pr = world.run_cli(argv, plan=w.plan)
+                raw = fs.files.get(p) if pr['status'] == 0 else None
+                o = Outcome(r, gzip.decompress(raw) if raw else None, files=stamp_files(before), extra=p)
                 o.proc = pr
                 o.argv = argv
                 if pr['status'] != 0:
@@ -292,9 +305,9 @@ def execute(sc):
     if not sc['seq']:
         # option sets the serialiser refuses: every route must refuse
         docroutes = [o for o in outcomes if o.route in ('stream', 'path', 'named_stream', 'file_handle', 'png_uri', 'svg_uri',
-                                                        'svgz', 'cli', 'nonseekable')]
+                                                        'svgz', 'cli', 'cli_svgz', 'nonseekable')]
         refusing = [o for o in docroutes if o.err and o.err.startswith('ValueError')]
-        if refusing and len(refusing) == len([o for o in docroutes if not fail_allowed(o)]) and not any(o.route == 'cli' and o.proc['status'] == 0 for o in docroutes):
+        if refusing and len(refusing) == len([o for o in docroutes if not fail_allowed(o)]) and not any(o.route in ('cli', 'cli_svgz') and o.proc['status'] == 0 for o in docroutes):
             counters['options_refused_by_all_routes'] = 1
             res['digest'] = core.digest(log)
             res['sample'] = _sample(sc, outcomes)
@@ -305,7 +318,7 @@ def execute(sc):
                 if fail_allowed(o):
                     counters['routes_failed_under_fault'] = counters.get('routes_failed_under_fault', 0) + 1
                     continue
-                if o.route == 'cli' and o.proc and o.proc.get('traceback') and fault_cfg and (o.proc['exc'] or '').split(':')[0] in _OSERRORS:
+                if o.route in ('cli', 'cli_svgz') and o.proc and o.proc.get('traceback') and fault_cfg and (o.proc['exc'] or '').split(':')[0] in _OSERRORS:
                     counters['routes_failed_under_fault'] = counters.get('routes_failed_under_fault', 0) + 1
                     continue
                 viols.append(_viol('c12.identical', 'route %s failed (%s) although other routes produce the document' % (o.route, o.err),
@@ -334,7 +347,7 @@ def execute(sc):
                     counters['documents_compared'] = counters.get('documents_compared', 0) + 1
         # exactly the named file, closed
         for o in outcomes:
-            if o.route in ('path', 'svgz', 'cli') and o.err is None:
+            if o.route in ('path', 'svgz', 'cli', 'cli_svgz') and o.err is None:
                 if sorted(o.files) != [o.extra]:
                     viols.append(_viol('c12.files', 'route %s created %s instead of exactly [%r]' % (o.route, sorted(o.files), o.extra), route=o.route))
                 elif not fs.complete(o.extra):
